@@ -36,7 +36,9 @@ func init() {
 			// ... and whose extension (spliced into the Content-Type of the answer) is not either
 			{SpecName: "open\"api.ya\\ml"}, {SpecName: "spec.y\"ml", BasePath: "/v3"},
 			// no extension at all, a trailing dot, a leading dot
-			{SpecName: "openapi"}, {SpecName: "spec.", Client: true}, {SpecName: ".hidden", BasePath: "/v1"}}
+			{SpecName: "openapi"}, {SpecName: "spec.", Client: true}, {SpecName: ".hidden", BasePath: "/v1"},
+			// paths that "cleaning" would rewrite: an empty segment in the base path, a dot segment in the name
+			{BasePath: "/api//v1"}, {SpecName: "./spec.yaml"}, {SpecName: "a/../spec.yaml", BasePath: "/v1"}}
 		for name, raw := range forms {
 			for bi, fl := range bases {
 				mk(fmt.Sprintf("specfile/%s/base%d", name, bi), raw, ".json", fl)
